@@ -14,8 +14,13 @@ On `fresh` steps synthetic layouts (model's id3f_build: v2.2/2.3/2.4/unsupported
 headers, non-syncsafe and overlong sizes, payloads shorter than the ID3v1 search window, TAG / APETAGEX tokens at
 the window offsets, legacy short ID3v1 tags) are saved and deleted through mutagen.id3.ID3 / mutagen.id3.delete with
 all option combinations (incl. negative and >= 2^28 padding) and compared with the model, exceptions included.
-Direct oracles for the genuine defects of find_id3v1 (classes tag-in-apev2, tag-in-id3v2) and of the default padding
-policy input (class default-policy-size-includes-tag) build their concrete inputs here."""
+After every successful layout save the result is deleted again through mutagen.id3.delete and compared; ID3Header and
+find_id3v1(start=...) are compared with the model's mirrors directly.  A vm_compute shard re-evaluates 36 small cases
+inside Coq (once per run).
+Regression oracles (no model involved) rebuild the concrete inputs of the genuine defects this family found and /repo
+fixed: classes tag-in-apev2 (TAG inside a trailing APEv2 tag taken for ID3v1, save destroyed the APEv2 footer),
+tag-in-id3v2 (TAG inside the freshly written ID3v2 frames, short payload), tag-in-id3v2-delete (same, module-level
+delete) and default-policy-size-includes-tag (second default save changed the file).  A regression is a VIOLATION."""
 import io
 import mutagen
 from common import hx, unhx, zs, zp
